@@ -34,6 +34,7 @@ func refReplace(pairs []string, s string) string {
 
 var replacerKeySets = [][]string{
 	{"a", "1"},
+	{"abcd", "1", "abce", "2"}, // second key splits a prefix node after 2 common bytes
 	{"ab", "X", "a", "Y"},
 	{"a", "Y", "ab", "X"},
 	{"abc", "1", "ab", "2", "a", "3"},
@@ -69,12 +70,17 @@ func sortedPairs(p []string) []string {
 
 // H_C08_replacer: _genericReplacer against the reference and strings.NewReplacer.
 func H_C08_replacer() {
-	nsets := tier(8, len(replacerKeySets))
+	nsets := tier(9, len(replacerKeySets))
 	pairs := replacerKeySets[symx.Choose(nsets)]
 	if symx.Choose(2) == 1 {
 		pairs = sortedPairs(pairs) // the order reflectMainPostPatch emits
 	}
-	n := 1 + symx.Choose(tier(3, 5))
+	longest := 0
+	for k := 0; k < len(pairs); k += 2 {
+		longest = max(longest, len(pairs[k]))
+	}
+	// inputs long enough to contain the longest key
+	n := 1 + symx.Choose(max(tier(3, 5), min(longest, tier(4, 6))))
 	s := symx.String("s", n)
 	// bytes of interest: the key alphabet plus "anything else"
 	r := _makeGenericReplacer(pairs)
